@@ -10,6 +10,18 @@ theorem UARTWord_eq_sound (a b : Word) (he : a.data_endianness = b.data_endianne
   obtain ⟨h1, h2, h3, _, h5⟩ := (Word_eq_iff a b).1 h
   simp only [Word.pack, h1, h2, h3, h5, he]
 
+/-- the hypothesis `he` cannot be dropped: `UARTDataWord.__eq__` does not look at `data_endianness` (a constructor
+    option), and two words that differ only there compare equal and encode differently (bytes swapped in pairs) -/
+example :
+    let w0 : Word := Word.setPayload (Word.fresh (.rtc 1) 0) [1, 2, 3, 4]
+    let w1 : Word := Word.setPayload (Word.fresh (.rtc 1) 1) [1, 2, 3, 4]
+    Word.eq w0 w1 = true ∧
+    (match w0.pack, w1.pack with | .ok x, .ok y => x != y | _, _ => false) = true := ⟨by decide, rfl⟩
+
+example :
+    let w : Word := Word.setPayload (Word.fresh (.ptp 5 999999999) 1) [1, 2, 3]
+    w.data_endianness = w.data_endianness ∧ Word.eq w w = true := ⟨rfl, by decide⟩
+
 theorem wordsEq_pack (as bs : List Word) (h : wordsEq as bs = true)
     (he : ∀ a ∈ as, ∀ b ∈ bs, a.data_endianness = b.data_endianness) :
     packList Word.pack as = packList Word.pack bs := by
@@ -42,6 +54,12 @@ theorem UART_eq_sound (a b : Packet) (ho : a.ipts_source = b.ipts_source)
     exact this _ _ h
   simp only [Packet.pack, hl, ho, wordsEq_pack _ _ h he]
 
+example :
+    let a : Packet := { uartwords := [Word.setPayload (Word.fresh (.ptp 5 999999999) 1) [1, 2, 3]], ipts_source := some 1,
+                        data_endianness := 1 }
+    a.ipts_source = a.ipts_source ∧ (∀ x ∈ a.uartwords, ∀ y ∈ a.uartwords, x.data_endianness = y.data_endianness) ∧
+    Packet.eq a a = true := ⟨rfl, by decide, by decide⟩
+
 /-- the object decoded from `a`'s encoding compares equal to `a`, provided each word's `datalength`
     is its data size (what the `payload` setter maintains) -/
 theorem UART_eq_decode (a t : Packet) (h : C04.UART_WF a) (ho : t.ipts_source = a.ipts_source)
@@ -62,5 +80,22 @@ theorem UART_eq_decode (a t : Packet) (h : C04.UART_WF a) (ho : t.ipts_source = 
       rw [Word_eq_iff]
       simp [norm, hw w (by simp)]
   exact this _ hd
+
+/-- non-vacuity of `UART_eq_decode`: two words with PTP stamps, the second with parity flag and the largest sub-channel.
+    (`UART_WF` demands a non-empty word list: `pack` of an empty packet raises.) -/
+example :
+    let a : Packet := { uartwords := [Word.setPayload (Word.fresh (.ptp 5 999999999) 1) [1, 2, 3],
+                                      Word.setPayload { Word.fresh (.ptp 6 0) 1 with parity_error := true, subchannel := 0x1FFF } [7]],
+                        ipts_source := some 1, data_endianness := 1 }
+    let t : Packet := Packet.fresh (some 1) 1
+    C04.UART_WF a ∧ t.ipts_source = a.ipts_source ∧ t.data_endianness = a.data_endianness ∧
+    (∀ w ∈ a.uartwords, w.datalength = some w.payload.length) := by
+  refine ⟨⟨?_, by simp, Or.inr ⟨1, .ptp 0 0, rfl, by simp [iptsOfSource, Gen.Ch11PayTs.TS_CH4, Gen.Ch11PayTs.TS_IEEE1558]⟩,
+    by simp [Word.fresh, Word.setPayload]⟩, rfl, rfl, by simp [Word.setPayload]⟩
+  intro w hw
+  simp only [List.mem_cons, List.mem_nil_iff, or_false] at hw
+  rcases hw with h | h <;> subst h <;>
+    simp [Word_WF, Word_Fits, Ipts_WF, C04.uartProtoIpts, iptsOfSource, Gen.Ch11PayTs.TS_CH4, Gen.Ch11PayTs.TS_IEEE1558, sameKind,
+      Word.fresh, Word.setPayload]
 
 end Acra.Props.C14
